@@ -26,7 +26,17 @@ JubjubD == NegM(MulM(OfInt(10240), InvM(OfInt(10241), BlsR), BlsR), BlsR)
 Jubjub == [form |-> "e", p |-> BlsR, r |-> JubR, a |-> Sub(BlsR, One), b |-> JubjubD, h |-> 8,
            g |-> Pt(<<229, 111, 213, 24, 163, 254, 45, 81, 95, 55, 190, 127, 101, 92, 49, 4, 238, 245, 114, 177, 227, 126, 211, 94, 163, 28, 18, 58, 103, 196, 165, 62>>,
                     <<203, 85, 12, 213, 56, 234, 12, 193, 19, 132, 128, 64, 142, 110, 170, 185, 179, 108, 97, 63, 13, 211, 247, 120, 79, 219, 110, 234, 131, 123, 19, 87>>)]
+\* Curve25519 in twisted Edwards form: a = -1, d = -(121665/121666), base point with y = 4/5, cofactor 8
+Curve25519D == NegM(MulM(OfInt(121665), InvM(OfInt(121666), C25519P), C25519P), C25519P)
+Curve25519 == [form |-> "e", p |-> C25519P, r |-> C25519L, a |-> Sub(C25519P, One), b |-> Curve25519D, h |-> 8,
+               g |-> Pt(<<26, 213, 37, 143, 96, 45, 86, 201, 178, 167, 37, 149, 96, 199, 44, 105, 92, 220, 214, 253, 49, 226, 164, 192, 254, 83, 110, 205, 211, 54, 105, 33>>,
+                        MulM(OfInt(4), InvM(OfInt(5), C25519P), C25519P))]
+\* BN254 (alt_bn128) G1: y^2 = x^3 + 3, generator (1, 2)
+Bn254P == <<71, 253, 124, 216, 22, 140, 32, 60, 141, 202, 113, 104, 145, 106, 129, 151, 93, 88, 129, 129, 182, 69, 80, 184, 41, 160, 49, 225, 114, 78, 100, 48>>
+Bn254R == <<1, 0, 0, 240, 147, 245, 225, 67, 145, 112, 185, 121, 72, 232, 51, 40, 93, 88, 129, 129, 182, 69, 80, 184, 41, 160, 49, 225, 114, 78, 100, 48>>
+Bn254G1 == [form |-> "w", p |-> Bn254P, r |-> Bn254R, a |-> Zero, b |-> OfInt(3), h |-> 1, g |-> Pt(One, OfInt(2))]
 CurveOf(name) == CASE name = "secp256k1" -> Secp256k1 [] name = "bls12_381_g1" -> Bls12381G1 [] name = "jubjub" -> Jubjub
+                   [] name = "curve25519" -> Curve25519 [] name = "bn256_g1" -> Bn254G1
 
 \* ---- membership -----------------------------------------------------------
 OnCurve(c, P) ==
@@ -79,7 +89,7 @@ Msm(c, ks, Ps) == MsmFrom(c, ks, Ps, 1)
 InSubgroup(c, P) == OnCurve(c, P) /\ PMul(c, c.r, P) = Id(c)
 
 \* ---- sanity of the constants (evaluated once when the module is loaded) ----
-ASSUME \A c \in {Secp256k1, Bls12381G1, Jubjub} :
+ASSUME \A c \in {Secp256k1, Bls12381G1, Jubjub, Curve25519, Bn254G1} :
          /\ OnCurve(c, c.g) /\ ~IsId(c, c.g)
          /\ PMul(c, c.r, c.g) = Id(c)
          /\ PMul(c, Sub(c.r, One), c.g) = Neg(c, c.g)
